@@ -156,7 +156,7 @@ std::shared_ptr<IFeature> BaseTagHDF5::getFeature(const std::string &name_or_id)
 
 std::shared_ptr<IFeature>  BaseTagHDF5::getFeature(ndsize_t index) const {
     boost::optional<H5Group> g = feature_group(false);
-    std::string id = g->objectName(index);
+    std::string id = g ? g->objectName(index) : "";
     return getFeature(id);
 }
 
